@@ -82,7 +82,7 @@ func (c *memClient) Get(ctx context.Context, in *v1alpha1.GetRequest, _ ...grpc.
 		return nil, err
 	}
 
-	resp, err := c.srv.Get(ctx, req)
+	resp, err := guardUnary("Get", func() (*v1alpha1.GetResponse, error) { return c.srv.Get(ctx, req) })
 	if err != nil {
 		return nil, toStatus(err)
 	}
@@ -96,7 +96,7 @@ func (c *memClient) Create(ctx context.Context, in *v1alpha1.CreateRequest, _ ..
 		return nil, err
 	}
 
-	resp, err := c.srv.Create(ctx, req)
+	resp, err := guardUnary("Create", func() (*v1alpha1.CreateResponse, error) { return c.srv.Create(ctx, req) })
 	if err != nil {
 		return nil, toStatus(err)
 	}
@@ -110,7 +110,7 @@ func (c *memClient) Update(ctx context.Context, in *v1alpha1.UpdateRequest, _ ..
 		return nil, err
 	}
 
-	resp, err := c.srv.Update(ctx, req)
+	resp, err := guardUnary("Update", func() (*v1alpha1.UpdateResponse, error) { return c.srv.Update(ctx, req) })
 	if err != nil {
 		return nil, toStatus(err)
 	}
@@ -124,7 +124,7 @@ func (c *memClient) Destroy(ctx context.Context, in *v1alpha1.DestroyRequest, _ 
 		return nil, err
 	}
 
-	resp, err := c.srv.Destroy(ctx, req)
+	resp, err := guardUnary("Destroy", func() (*v1alpha1.DestroyResponse, error) { return c.srv.Destroy(ctx, req) })
 	if err != nil {
 		return nil, toStatus(err)
 	}
@@ -142,7 +142,7 @@ func (c *memClient) Teardown(ctx context.Context, in *v1alpha1.TeardownRequest, 
 		return nil, err
 	}
 
-	resp, err := c.srv.Teardown(ctx, req)
+	resp, err := guardUnary("Teardown", func() (*v1alpha1.TeardownResponse, error) { return c.srv.Teardown(ctx, req) })
 	if err != nil {
 		return nil, toStatus(err)
 	}
@@ -160,7 +160,7 @@ func (c *memClient) TeardownAndDestroy(ctx context.Context, in *v1alpha1.Teardow
 		return nil, err
 	}
 
-	resp, err := c.srv.TeardownAndDestroy(ctx, req)
+	resp, err := guardUnary("TeardownAndDestroy", func() (*v1alpha1.TeardownAndDestroyResponse, error) { return c.srv.TeardownAndDestroy(ctx, req) })
 	if err != nil {
 		return nil, toStatus(err)
 	}
@@ -416,4 +416,17 @@ func (p *watchFaultPlan) next() (int, error) {
 	}
 
 	return p.plan[i].BreakAfter, nil
+}
+
+// guardUnary turns a handler panic into what a client of a real server would see (and records that the server died).
+func guardUnary[T any](method string, f func() (*T, error)) (resp *T, err error) {
+	defer func() {
+		if p := recover(); p != nil {
+			recordServerPanic(method, p)
+
+			resp, err = nil, status.Error(codes.Internal, "server panic")
+		}
+	}()
+
+	return f()
 }
